@@ -141,7 +141,8 @@ def _gen_op(rng, cfg):
         coords = [[0.0, 0.0, 0.0], [0.0, 0.0, round(rng.uniform(1.2, 2.5), 2)], [round(rng.uniform(1.2, 2.0), 2), 0.3, 0.0]][:nat]
         atnums = [rng.choice([1, 6, 7, 8]) for _ in range(nat)]
         tab_size = M.resolve("lebedev", "degree", rng.choice(cfg["pool"]["lebedev"]))[1]
-        return ["molctor", how, atnums, coords, _gen_rspec(rng), tab_size, rng.choice([0, 37, 5]), rng.random() < 0.5,
+        # (a sixth of these leave the radial grid to the library: rgrid=None, the per-element default)
+        return ["molctor", how, atnums, coords, _gen_rspec(rng) if rng.random() > 0.17 else None, tab_size, rng.choice([0, 37, 5]), rng.random() < 0.5,
                 sorted(round(rng.uniform(0.2, 2.0), 2) for _ in range(2)), [rng.choice(cfg["pool"]["lebedev"]) for _ in range(3)]]
     if kind == "moluse":
         return ["moluse", rng.randrange(1000), rng.choice(["integrate", "interp", "interp", "atomic", "peek"]), rng.randrange(16)]
@@ -151,7 +152,7 @@ def _gen_op(rng, cfg):
         return ["use", rng.randrange(1000), rng.choice(["integrate", "angint", "sph", "spline", "interp", "basis", "savg", "sph", "interp", "peek", "peek"]),
                 rng.choice([0, rng.randrange(16), rng.randrange(16)])]
     if kind == "edit":
-        return ["edit", rng.randrange(1000), rng.choice(["points", "weights", "points", "weights", "indices", "degrees", "aux"]), rng.choice(EDIT_HOWS)]
+        return ["edit", rng.randrange(1000), rng.choice(["points", "weights", "points", "weights", "indices", "degrees", "aux", "rgrid"]), rng.choice(EDIT_HOWS)]
     if kind == "reobserve":
         return ["reobserve", rng.randrange(1000)]
     if kind == "drop":
@@ -740,7 +741,7 @@ def _build_molctor(ctx, op):
     from grid.molgrid import MolGrid
 
     _, how, atnums, coords, rspec, size, rotate, store, r_sectors, d_sectors = op
-    rg = _rgrid(ctx, rspec)
+    rg = _rgrid(ctx, rspec) if rspec is not None else None
     an = np.array(atnums)
     ac = np.array(coords, dtype=float)
     if how == "size":
@@ -1029,7 +1030,19 @@ def _op_edit(ctx, owner, op):
         name = attr if attr != "aux" else ("atweights" if o.kind == "mol" else "basis")
         had_fault = ctx.store.active()
         mark = ctx.mark()
-        oc = _outcome(lambda: getattr(g, name, None))
+
+        def read():
+            if attr == "rgrid":
+                # a radial grid that the LIBRARY made (rgrid=None: the per-element default) and handed out inside a
+                # stored atomic grid.  (Radial grids the caller made itself are shared by all the grids it gave them
+                # to: editing one of those is the caller's own doing and says nothing about the library.)
+                if not (o.kind == "mol" and o.recipe[0] == "molctor" and o.recipe[4] is None and getattr(g, "atgrids", None)):
+                    return None
+                rg = getattr(g.atgrids[0], "rgrid", None)
+                return None if rg is None else (rg.points if how in ("zero", "scale", "add", "nan") else rg.weights)
+            return getattr(g, name, None)
+
+        oc = _outcome(read)
         if oc[0] == "raise":
             if ctx.fired_since(mark) or had_fault:
                 ctx.log.add(ctx.step, "edit", "read-raised-under-fault", type(oc[1]).__name__)
@@ -1475,6 +1488,20 @@ class CacheHistoryEngine:
                 what = rng.choice(["integrate", "angint", "sph", "spline", "interp"])
                 v1, v2 = rng.choice([(0, 0), (0, 0), (rng.randrange(16), rng.randrange(16))])
                 pat = [atom_op(), ["shell", -1, i0, rsq], ["use", -1, what, v1], ["drop", -1, "atom"], atom_op(), ["shell", -1, i0, rsq], ["use", -1, what, v2]]
+                pos = rng.randint(0, len(spec["ops"]))
+                spec["ops"][pos:pos] = pat
+            if rng.random() < 0.06:
+                # library-made radial grids: a molecular grid with default radial grids (stored atomic grids), the caller
+                # edits the radial grid of one of its atoms, then asks for another molecule with default radial grids
+                how = rng.choice(["size", "preset", "preset"])
+                an = [rng.choice([1, 6, 8]) for _ in range(2)]
+                co = [[0.0, 0.0, 0.0], [0.0, 0.0, round(rng.uniform(1.2, 2.5), 2)]]
+                tab_size = M.resolve("lebedev", "degree", rng.choice(cfg["pool"]["lebedev"]))[1]
+
+                def mc(store):
+                    return ["molctor", how, list(an), co, None, tab_size, rng.choice([0, 37]), store, [0.5, 1.0], [3, 5, 3]]
+
+                pat = [mc(True), ["edit", -1, "rgrid", rng.choice(["scale", "add", "negate", "reverse"])], mc(rng.random() < 0.5)]
                 pos = rng.randint(0, len(spec["ops"]))
                 spec["ops"][pos:pos] = pat
         return spec
